@@ -147,7 +147,7 @@ def chain_runs(args):
     signal.signal(signal.SIGALRM, _alarm)
     signal.alarm(90)
     try:
-        out = _chain_rows(m, variant, times, n, state)
+        out = _chain_rows(m, variant, times, n, state, form=seed)
     except _NoReturn:
         out = [None] * n
     finally:
@@ -155,7 +155,7 @@ def chain_runs(args):
     return out
 
 
-def _chain_rows(m, variant, times, n, state):
+def _chain_rows(m, variant, times, n, state, form=0):
     out = []
     if variant in ("scalar", "own"):
         if variant == "own":
@@ -170,7 +170,9 @@ def _chain_rows(m, variant, times, n, state):
             out.append([[int(v) for v in x[k]] for k in ks])
     else:
         grid = np.array([0.0] + times)
-        X, J, T = m.solve_stochast(grid, n, exact=True, full_output=True)
+        # the requested times are handed over as an array, a list or a tuple
+        tin = [grid, list(grid), tuple(grid)][form % 3] if variant == "grid" else grid
+        X, J, T = m.solve_stochast(tin, n, exact=True, full_output=True)
         for x in X:
             x = np.asarray(x, float)
             if x.shape != (len(grid), len(state)):
